@@ -354,6 +354,39 @@ def pipeline_part(ck: Check, rnd):
             Pz = np.array([eval_list(fwd[i], z, clmo) for i in range(6)])
             comp2.append(abs(eval_list(L.hamiltonian(N, "complex_partial_normal").poly_H, z, clmo) - eval_list(H_old_again, Pz, clmo)))
         cs.obs(t3, "composition_law_excess", excess(comp2, N + 1))
+        # history on ONE pipeline, as the centre-manifold service uses it: the inverse expansions are asked for FIRST (to_cm),
+        # then the forward ones (to_synodic); then the full normal form is requested and everything is fetched again.  What the
+        # pipeline serves for the partial normal form must not depend on that order nor on the detour.
+        if sname == cases[0][0] and li == cases[0][1]:
+            from hiten.algorithms.hamiltonian.pipeline import HamiltonianPipeline
+            pipe = HamiltonianPipeline(L, N)
+            Hm = [np.asarray(b).copy() for b in pipe.get_hamiltonian("complex_modal").poly_H]
+            Hp = [np.asarray(b).copy() for b in pipe.get_hamiltonian("complex_partial_normal").poly_H]
+            snap = lambda: [np.asarray(b).copy() for b in pipe.get_generating_functions("partial").poly_G]
+            G0 = snap()
+            inv1 = pipe.get_lie_expansions(inverse=True)
+            G1 = snap()
+            fwd1 = pipe.get_lie_expansions(inverse=False)
+            fwd1c = [[np.asarray(b).copy() for b in fwd1[i]] for i in range(6)]
+            th = cs.trace(label + "|served-history", {"generators_unchanged_by_expansion": -130, "composition_law_excess": -100,
+                                                      "inverse_law_excess": -100, "generators_unchanged_by_full": -130,
+                                                      "expansions_unchanged_by_full": -130},
+                          {"system": sname, "L": li, "N": N, "form": "partial-served-history"})
+            ck.count(("pipeline-history", label), True)
+            dmax = lambda A, B: max((float(np.max(np.abs(np.asarray(a) - np.asarray(b)))) if np.asarray(a).size else 0.0) for a, b in zip(A, B))
+            cs.obs(th, "generators_unchanged_by_expansion", dmax(G0, G1))
+            comp3, inv3 = [], []
+            for r in (0.01, 0.02, 0.04, 0.08):
+                z = r * d0
+                Pz = np.array([eval_list(fwd1[i], z, clmo) for i in range(6)])
+                comp3.append(abs(eval_list(Hp, z, clmo) - eval_list(Hm, Pz, clmo)))
+                inv3.append(float(np.max(np.abs(np.array([eval_list(inv1[i], Pz, clmo) for i in range(6)]) - z))))
+            cs.obs(th, "composition_law_excess", excess(comp3, N + 1))
+            cs.obs(th, "inverse_law_excess", excess(inv3, N + 1))
+            pipe.get_hamiltonian("complex_full_normal")
+            cs.obs(th, "generators_unchanged_by_full", dmax(G0, snap()))
+            fwd2 = pipe.get_lie_expansions(inverse=False)
+            cs.obs(th, "expansions_unchanged_by_full", max(dmax(fwd1c[i], fwd2[i]) for i in range(6)))
         t2 = cs.trace(label + "|full", {"support_full": -100}, {"system": sname, "L": li, "N": N, "form": "full"})
         bigf = max(float(np.max(np.abs(b))) for b in H_full if np.asarray(b).size)
         worst = 0.0
